@@ -25,6 +25,10 @@ const MAX_EVALUATION_STEPS: usize = 1_000_000;
 /// every level costs a piece of the stack
 const MAX_EVALUATION_DEPTH: usize = 256;
 
+/// Limit of evaluated nodes of all expressions of one build: every single expression may stay below
+/// MAX_EVALUATION_STEPS while thousands of them keep the build busy for hours
+const MAX_BUILD_EVALUATION_STEPS: usize = 16_000_000;
+
 #[derive(Clone, PartialEq, Eq, Debug)]
 pub enum Expr {
     Ident(String),
@@ -120,7 +124,14 @@ impl Expr {
     }
 
     pub fn run(&self, constants: &dyn Context) -> Result<i64, ExprRunError> {
-        self.run_nested(constants, 0, 0, &Cell::new(0))
+        let steps = Cell::new(0);
+        let result = self.run_nested(constants, 0, 0, &steps);
+        if constants.count_evaluated(steps.get()) > MAX_BUILD_EVALUATION_STEPS {
+            return Err(ExprRunError::ArithmeticError(
+                "Expressions of the source are too complex to evaluate".to_string(),
+            ));
+        }
+        result
     }
 
     /// Evaluate expression, `depth` counts symbols which are resolved through other symbols,
